@@ -179,7 +179,9 @@ def serialise(tree, style):
     emit(tree, 0, "", True)
     body = "".join(out)
     if style.get("decl"):
-        body = '<?xml version="1.0" encoding="utf-8"?>\n' + body
+        # the document reaches the factory as text (already decoded by the requester): whatever encoding the
+        # declaration names must not change how that text is read
+        body = f'<?xml version="1.0" encoding="{style.get("decl_enc", "utf-8")}"?>\n' + body
     return body + style.get("trail", "")
 
 
@@ -631,6 +633,7 @@ class Gen:
 def rand_render(rng, ship=False):
     style = {"prefix": rng.random() < 0.3, "pretty": rng.random() < 0.5, "cdata": rng.random() < 0.3, "decl": rng.random() < 0.6,
              "comments": rng.random() < 0.2, "selfclose": rng.random() < 0.7,
+             "decl_enc": rng.choice(["utf-8", "utf-8", "UTF-8", "ISO-8859-1", "windows-1252", "us-ascii"]),
              "trail": rng.choice(["", "", "\n", "\0", "\r\n \0\0", " \t"])}
     return {"perm": rng.choice([0, 0, 1, 2, 3, 5]), "pad": rng.random() < 0.3, "spec": rng.random() < 0.7, "empty": rng.random() < 0.4,
             "style": style, "ship": ship}
